@@ -25,7 +25,7 @@ func init() {
 	register("C03", streamPrinterWF)
 	register("C11", streamTotality, streamPrinterWF)
 	register("PM", streamPrinterModel)
-	for _, p := range []string{"C01", "C02", "C04", "C05", "C06", "C08", "C11", "C15", "C16", "C17"} {
+	for _, p := range []string{"C01", "C02", "C04", "C05", "C06", "C08", "C11", "C12", "C15", "C16", "C17"} {
 		register(p, streamPrinterModel)
 	}
 	register("C02", streamNI)
